@@ -118,6 +118,7 @@ def stepCLInc (s : Full) (op : String) (args : List String) : Full × String :=
     | some s' => (s', "ok")
     | none => (s, "panic")
   | "nextid", [] => let r := stepCLPool s.fees.pool op args; (s, r.2)
+  | "setnextid", [_] => let r := stepCLPool s.fees.pool op args; ({ s with fees := { s.fees with pool := r.1 } }, r.2)
   -- F41: what `GetFullRangeLiquidityInPool` answers on a node imported NOW (Σ liquidity of the full-range positions); the running
   -- chain's record (it follows `SetPosition`) lives in the layered state `FullG` of Model/CLFullGenesis, not in this engine's state
   | "fullrange-imported", [] => (s, s!"ok {sumFullRange (sortPosById s.fees.pool.positions)}")
